@@ -94,11 +94,12 @@ def full_view(data):
     return line + " X[" + "|".join(extra) + "]"
 
 
-def perms_for(ck, n, quick, alien=None):
-    """`alien`: index of an entry that must be tried at every position of the map"""
-    if n <= 5 or (n <= 7 and not quick):
+def perms_for(ck, n, quick, alien=None, size_cap=False):
+    """`alien`: index of an entry that must be tried at every position of the map; `size_cap`: a large shipped file
+    (each parse takes seconds) gets 16 orders even in the thorough tier, so that the tier ends in tens of minutes"""
+    if n <= 5 or (n <= 6 and not quick and not size_cap):
         return list(itertools.permutations(range(n)))
-    k = (24 if n <= 7 else 12) if quick else 400
+    k = (24 if n <= 7 else 12) if quick else (16 if size_cap else 120)
     out = [tuple(reversed(range(n)))]
     if alien is not None:
         others = [i for i in range(n) if i != alien]
@@ -173,7 +174,7 @@ def run(ck: Check):
     for origin, data, model, u in unknown_type_files(rng, big):
         files.append((origin, data, model))
         alien[origin] = u
-    for i in range(3000 if not ck.quick else (800 if ck.escalated else 160)):
+    for i in range(1000 if not ck.quick else (800 if ck.escalated else 160)):
         model = M.gen_model(rng)          # format versions 035..041
         files.append(("random:%d" % i, M.build(model)[0], model))
     for name, data in c05.shipped_dex():
@@ -197,7 +198,7 @@ def run(ck: Check):
         dist["map_entries_min"] = min(dist["map_entries_min"], n)
         dist["map_entries_max"] = max(dist["map_entries_max"], n)
         dist["files_with_annotations_or_static_values"] += any(t in (0x2005, 0x2006, 0x2004) for t in types)
-        perms = perms_for(ck, n, not big, alien.get(origin))
+        perms = perms_for(ck, n, not big, alien.get(origin), size_cap=len(data) > 100000)
         dist["files_version_ge_040"] += data[4:7] >= b"040"
         dist["outcome_error_files"] += base.startswith("err")
         dist["exhaustive_files"] += len(perms) > 1 and len(perms) == len(set(perms)) and n <= 7 and len(perms) >= 120
